@@ -511,12 +511,45 @@ pub fn run(ctx: &Ctx) -> PropResult {
         let v = if f < 6 { gen_value(rng, n as i128, f + 4) as u32 } else { 0 };
         judge_time_op(rec, n, off, f, v);
     }));
+    // call sequences: a setter / clear on a value, on siblings of it, and on the value again
+    wls.push(Workload::cases("sibling_call_sequences", ctx.count(40_000, 1_500_000), |rec, idx, rng| {
+        let (lo, hi) = (MIN_INSTANT + 3 * D, MAX_INSTANT - 3 * D);
+        let i = gen_c09_instant(rng).clamp(lo, hi);
+        let off = gen_c09_offset(rng, i);
+        let f = (idx % 10) as usize;
+        let local = i + off as i128 * NS;
+        let fl = fields(local);
+        let v: i64 = match f {
+            0 => (fl.year + rng.range_i64(-3, 3)).clamp(-5_000_000, 5_000_000),
+            1 => rng.range_i64(0, 13),
+            2 => rng.range_i64(0, 32),
+            3 => rng.range_i64(0, 367),
+            4 => rng.range_i64(0, 24),
+            5 | 6 => rng.range_i64(0, 60),
+            7 => rng.range_i64(0, 1000),
+            8 => rng.range_i64(0, 1_000_000),
+            _ => rng.range_i64(0, 1_000_000_000),
+        };
+        rec.bin("sequence/sibling-calls");
+        judge_dt_set(rec, i, off, f, v);
+        for _ in 0..3 {
+            let j = crate::model::magic::sibling_instant(rng, i, lo, hi);
+            let o2 = if rng.chance(1, 2) { off } else { gen_c09_offset(rng, j) };
+            if rng.chance(1, 3) {
+                judge_dt_clear(rec, j, o2, rng.below(9) as usize);
+            } else {
+                judge_dt_set(rec, j, o2, if rng.chance(1, 2) { f } else { rng.below(10) as usize }, v);
+            }
+        }
+        judge_dt_set(rec, i, off, f, v);
+    }));
     wls.push(Workload::cases("offset_local_twins", ctx.count(6_000, 200_000), |rec, _, rng| super::localzone::twin_case(rec, rng, "C09", super::walk::Family::SetClear)));
     wls.push(Workload::cases("api_walks", ctx.count(30_000, 1_500_000), |rec, _, rng| super::walk::walk(rec, rng, "C09", super::walk::Family::SetClear)));
     let out = run_workloads(ctx, wls);
     let mut meta = PropMeta::default();
     meta.rule = "instants rich in month ends, Feb 28/29/Mar 1 of leap and common (century) years AD and BC, year ends, 0001-01-01 ± 2 d and end-of-day times x offsets {0, whole hours, the offsets that carry the local date across midnight in either direction for that instant ±3 s, uniform ±86399} x 10 setters x candidate values (every value of the small domains on sampled instants; boundary ±1, 2^31, u32::MAX, year 0, leap/common/range-end years, random) and 9 clear_until_*; random API walks in which set_*/clear_until_* steps are judged; Date (4 setters, 3 clears) and Time (6 setters, 6 clears, offsets that wrap midnight) likewise. Oracle: local fields of i + offset, edit one field, re-assemble, subtract the offset; all ten getters, the instant and the offset are compared. Results within one day of the range ends are skipped (no representable expectation). Every case is non-trivial; distinct by input hash. Absolute check besides the differential one: after set_<f>(v) the getter of f reads v; after clear_until_<u> the getters of u and everything finer read their minimum. Offset::Local twins for setters and clears (system zone hooked; real zones with transitions, the value possibly on the other side of a transition from the pinned 'now').".into();
     meta.required_bins = vec![
+        "sequence/sibling-calls",
         "local-twin/judged", "local-twin/synthetic-fixed-zone", "local-twin/real-zone-with-transitions",
         "offset0", "local-date=utc-date", "local-date≠utc-date", "value/valid", "value/invalid", "clear/judged",
         "date/valid", "date/invalid", "time/valid", "time/invalid", "time/offset-wraps-midnight", "walk/with-judged-steps",
